@@ -791,7 +791,7 @@ MANIFEST = dict(
     'extremality, data-dependent iteration): listed as outside.',
     note='K<=3, 2x2 antennas, one stream; RNG stub via private _rs; floats '
     'as reals; convergence/alignment clauses outside'
-    ' Concrete data-representation / scale / boundary probes of the real'
+    '. Concrete data-representation / scale / boundary probes of the real'
     ' code (dtype, container and memory-layout variants, argument'
     ' immutability, magnitudes) accompany the symbolic runs; they are'
     ' differential runs, not solver verdicts.',
